@@ -492,6 +492,7 @@ class ExecBase:
         bound = spec.bounded if spec is not None and spec.bounded else None
         if bound is None:
             raise Unsupported(f"while loop at line {node.lineno} has no loop contract")
+        note_ix = len(self.bounded_loops)
         self.bounded_loops.append(f"while@{node.lineno} unrolled<= {bound}")
         out = []
         frontier = [st]
@@ -515,6 +516,8 @@ class ExecBase:
                                 out.append((s3, o))
             frontier = nxt
         # paths still in the loop after `bound` iterations are cut (bounded!)
+        if not frontier:
+            self.bounded_loops[note_ix] += " (every path left the loop within the bound: exact for the contract's concrete heap shape)"
         return out
 
     def s_For(self, node, st):
